@@ -54,7 +54,9 @@ Definition stem_suffix (name : str) : str * str :=
       if nonempty stem && Nat.ltb 1 (length suf) then (stem, suf) else (name, [])
   | None => (name, [])
   end.
-Definition scalar_text (v : scalar) : str := py_str v.
+(* the key as text, path separators spelled as underscores (repo fix 7af8903: re.sub(r"[\\/]", "_", str(key))) *)
+Definition scalar_text (v : scalar) : str :=
+  map (fun c => if (c =? c_slash) || (c =? c_bsl) then c_us else c) (py_str v).
 Definition target_file_name (name : str) (prefix : option str) (scope : list scalar) (output : option str) : str :=
   let (stem0, suf0) := stem_suffix name in
   let '(fname, ending) :=
